@@ -235,7 +235,7 @@ class RefEncoder:
 ALL_FEATURES = frozenset({
     "resend", "slot", "explicit-entry-id", "split", "empty-prefix-entry", "explicit-ref",
     "no-elide", "regraph", "frames", "repeat-options", "version", "single-frame",
-    "leading-empty", "early-entry",
+    "leading-empty", "early-entry", "late-namespace",
 })
 
 
@@ -266,6 +266,9 @@ def encode(chooser, seq, physical: int, sizes, *, namespaces=(), features=ALL_FE
         if i + 1 < len(seq) and enc._c("early-entry", 2, "early-entry"):
             enc.prefetch(seq[i + 1])
         enc.statement(st)
+        if namespaces and enc._c("late-namespace", 2, "late-namespace"):
+            # a producer may declare a namespace anywhere, also between two statements of a frame
+            enc.namespace("late", "http://late/ns#")
     enc.finish()
     raw = [jwire.enc_frame(rows, meta) for rows, meta in enc.frames]
     if single:
